@@ -351,8 +351,8 @@ func (w *World) client(p *CallPlan) *connect.Client[Msg, Msg] {
 	for _, name := range cfg.NilAccept {
 		opts = append(opts, connect.WithAcceptCompression(name, nil, nil))
 	}
-	if cfg.FailCodec {
-		opts = append(opts, connect.WithCodec(&simCodec{name: "proto", inner: pbCodec{}}))
+	if cfg.FailCodec || cfg.OwnTypeCodec {
+		opts = append(opts, connect.WithCodec(&simCodec{name: "proto", inner: pbCodec{}, ownTypeEOF: cfg.OwnTypeCodec}))
 		if cfg.JSON {
 			opts = append(opts, connect.WithCodec(&simCodec{name: "json", inner: pbCodec{json: true}}))
 		}
